@@ -88,10 +88,11 @@ def mech_mutant():
 def c15(tier):
     if tier == 'quick':
         return [mech('triples', 2, 'small'), sel('pairs', 'C15', SEL(2, 'pairs', 'small'), ['Emit']), EXTRAS('C15'),
-                sel('one-step-funcs', 'C15', SEL(1, 'triples', 'small', funcs=True, fset='small'), ['Emit']), traceB_eval(6000, 60000, 'C15', EVAL_ATTR)]
+                sel('one-step-funcs', 'C15', SEL(1, 'triples', 'small', funcs=True, fset='small'), ['Emit']),
+                sel('failing-branches', 'C15', SEL(3, 'errs', 'errs'), ['Emit']), traceB_eval(6000, 60000, 'C15', EVAL_ATTR)]
     return [mech('pairs', 2, 'small', 7200), mech('triples', 3, 'small', 7200), mech_mutant(),
             sel('pairs', 'C15', SEL(2, 'pairs', 'full'), ['Emit'], timeout=3600), sel('triples', 'C15', SEL(3, 'triples', 'full'), ['Emit'], timeout=7200),
-            traceB_eval(6000, 60000, 'C15', EVAL_ATTR)]
+            sel('failing-branches', 'C15', SEL(3, 'errs', 'errs'), ['Emit']), traceB_eval(6000, 60000, 'C15', EVAL_ATTR)]
 
 
 def c14(tier):
@@ -577,6 +578,7 @@ CHECKS = {
     'C02': dict(stages=c02, level='model_checking'),
     'C03': dict(stages=simple_sel('C03', ['LawFailsIffEmpty'], extra=[lambda: SLICES('C03'), lambda: filt('filter-atoms', 'C03', 2, 1, 'both', 'all'), lambda: filt('filter-deep-eq', 'C03', 2, 1, 'both', 'deep'), lambda: traceB_eval(4000, 60000, 'C03', EVAL_ATTR)]), level='model_checking'),
     'C04': dict(stages=simple_sel('C04', extra=[lambda: filterproto(1), lambda: filt('filters', 'C04', 2, 2, 'arr', 'two'), lambda: traceB_eval(3000, 60000, 'C04', EVAL_ATTR),
+                                                 lambda: sel('one-step-funcs', 'C04', SEL(1, 'triples', 'small', funcs=True, fset='small'), ['Emit']),
                                                  lambda: dict(kind='gen', module='Gen_Opaque', label='documents-with-typed-containers', props='C04,C12', timeout=1800, check_count=False,
                                                               constants=dict(MaxLen=2, Templates='few', TypeSet='containers'), invariants=['Emit'])], quick_scope='triples'), level='model_checking'),
     'C07': dict(stages=c07, level='model_checking'),
